@@ -364,6 +364,15 @@ def bind_ack_body(sec_addr: str, results: t.Sequence[tuple], assoc: int = 0x1234
     return b
 
 
+def plain_response(atype: int, sig_len: int, call_id: int, cid: int, reply: bytes) -> t.Tuple[bytes, bytes, bytes]:
+    """A RESPONSE carrying `reply`, before sealing: (PDU header + response header, stub padded to 16, security trailer header)."""
+    rpad = -len(reply) % 16
+    rstub = reply + b"\x00" * rpad
+    total = 16 + 8 + len(rstub) + 8 + sig_len
+    hdr24 = header(PT_RESPONSE, PFC_FIRST | PFC_LAST, total, sig_len, call_id) + struct.pack("<IHBB", len(rstub), cid, 0, 0)
+    return hdr24, rstub, sec_trailer(atype, rpad)
+
+
 # ------------------------------------------------------------------------------------------------------------------
 # security contexts
 # ------------------------------------------------------------------------------------------------------------------
@@ -417,6 +426,7 @@ class RecordingCtx:
         self._inner = inner
         self.step_args: t.List[t.Optional[bytes]] = []
         self.step_outs: t.List[bytes] = []
+        self.wrap_calls: t.List[list] = []
 
     @property
     def complete(self):
@@ -427,6 +437,13 @@ class RecordingCtx:
         out = self._inner.step(in_token)
         self.step_outs.append(bytes(out or b""))
         return out
+
+    def wrap_iov(self, iov, encrypt=True, qop=None):
+        import spnego.iov as I
+
+        first = iov[0][0] if isinstance(iov[0], tuple) else None
+        self.wrap_calls.append([None, None, None, first == I.BufferType.sign_only, True])
+        return self._inner.wrap_iov(iov, encrypt=encrypt, qop=qop)
 
     def __getattr__(self, name):
         return getattr(self._inner, name)
@@ -857,17 +874,13 @@ class IsdConn(Conn):
         return self.sealed_response(p, cid, reply)
 
     def sealed_response(self, p: dict, cid: int, reply: bytes) -> bytes:
-        rpad = -len(reply) % 16
-        rstub = reply + b"\x00" * rpad
         sig_len = self.sig_size()
-        trl = sec_trailer(self.atype, rpad)
-        body = struct.pack("<IHBB", len(rstub), cid, 0, 0)
-        total = 16 + 8 + len(rstub) + 8 + sig_len
-        hdr24 = header(PT_RESPONSE, PFC_FIRST | PFC_LAST, total, sig_len, p["call_id"]) + body
+        hdr24, rstub, trl = plain_response(self.atype, sig_len, p["call_id"], cid, reply)
         sealed_out, sig = self.wrap(hdr24, rstub, trl)
         if len(sig) != sig_len or len(sealed_out) != len(rstub):
             raise RuntimeError("security context changed its sizes")
-        self.dc.sent.append({"conn": "isd", "ptype": PT_RESPONSE, "plain_wire": hdr24 + rstub + trl + b"\x00" * sig_len, "stub": reply, "pad": rpad})
+        self.dc.sent.append({"conn": "isd", "ptype": PT_RESPONSE, "plain_wire": hdr24 + rstub + trl + b"\x00" * sig_len, "stub": reply,
+                             "pad": len(rstub) - len(reply)})
         return hdr24 + sealed_out + trl + sig
 
     def sealed_fault(self, p: dict, status: int) -> bytes:
